@@ -110,8 +110,21 @@ impl C02 {
 
 impl Monitor for C02 {
     fn run_case(&mut self, idx: u64, obs: &mut Obs) {
-        let (src, input, kind) = self.gen(idx);
+        let (mut src, input, mut kind) = self.gen(idx);
         let mut rng = Rng::for_case("C02walk", self.seed, idx);
+        // a few very long histories (tens of thousands of steps, > 2^16 log records): rewound to the start and replayed
+        let long = !small() && idx % 3000 == 1499;
+        if long {
+            let n = 9_000 + rng.below(5_000);
+            src = match rng.below(3) {
+                0 => format!("0 var acc {} 0 do I 3 * acc + ! acc loop acc", n),
+                1 => format!(": step-w local a a 1 + ; 0 {} 0 do step-w I drop loop", n),
+                _ => format!("{} 0 do [ I ] 0 get drop 1 2 swap drop drop loop 7", n),
+            };
+            kind = "long-history".into();
+            obs.count("long_histories");
+        }
+        let max_steps = if long { 200_000 } else { self.max_steps };
         let mut xs = self.boot.clone();
         xs.set_binary_input(Xbitstr::from(input)).expect("input");
         let _ = xs.set_stack_limit(Some(50_000));
@@ -137,7 +150,7 @@ impl Monitor for C02 {
                 h.ended = true;
                 break;
             }
-            if h.insn.len() >= self.max_steps {
+            if h.insn.len() >= max_steps {
                 break;
             }
             let name = insn_name(&xs, xs.ip());
@@ -181,7 +194,7 @@ impl Monitor for C02 {
         // ---- walk
         let mut pos = n; // index into dumps; `failed` = we are in the state after the failing step
         let mut failed = h.fail.is_some();
-        let total_moves = 3 * n + 6;
+        let total_moves = if long { 300 } else { 3 * n + 6 };
         let mut plan: Vec<bool> = Vec::with_capacity(total_moves + 2 * n + 4); // true = forward
         for _ in 0..total_moves {
             // biased walk so that it drifts back and forth over the whole history
@@ -297,6 +310,10 @@ impl Monitor for C02 {
         obs.add("moves_checked", moves);
         obs.add("evaluations", 1);
         obs.maxi("max_rewind_depth", max_rewind as u64);
+        if long {
+            obs.maxi("max_log_records_rewound", xs.reverse_log.as_ref().map(|l| l.len()).unwrap_or(0) as u64);
+            obs.count("long_histories_rewound_and_replayed");
+        }
         if h.fail.is_some() {
             obs.count("histories_ending_in_failed_step");
         } else if h.ended {
